@@ -12,14 +12,19 @@ Calls (field `call`):
 * `route`      — `{op | kind, sa, rows, cols}, k, which, alg` ↦ the rule `eig` ends in, its ordering.
 * `select`     — `k, which, magkey` (the magnitudes `abs(eig_vals)` of the computed spectrum as the bit
                  patterns of the non-negative doubles — ordered like the doubles — in computed order),
-                 `magrank` (magnitude ranks with ties) ↦ the positions `select_by_magnitude` returns,
+                 `magrank` (magnitude ranks with ties) ↦ `selectPath` (the function of the theorems) run on
+                 the spectrum (`magkey`, index-tagged columns): the positions of the returned columns,
+                 cross-checked against `selectPos` (= `select_by_magnitude`),
                  the positional slice also through the CPython slice model, whether the selected
                  positions are an extreme-magnitude selection.
+* `lobpcg`     — `k, which, max_iters, magkey, magrank` of the FULL spectrum ascending by value ↦ the positions the
+                 `LOBPCG` rule returns (`lobpcgRule`), whether they are the extreme selection, violated clauses.
 * `structural` — `op, k, which` ↦ CODE: values and vectors of the structural rule in exact ℚ[i]
                  arithmetic; SPEC: exact checks against `den` (eigenpairs, orthonormality,
                  independence, extreme magnitudes); violated clauses.
 * `power`      — `n, cplx, A, v0, tol, max_iter` (IEEE bit patterns) ↦ the state machine on doubles:
-                 step count, value, vector, the error seen by every evaluation of the test.
+                 step count, value, vector, the error seen by every evaluation of the test and the value
+                 `eig` of every state (compared step by step with the products the real run formed).
 -/
 
 open Lean (Json)
@@ -73,13 +78,43 @@ def handleSelect (j : Json) (pre : String) : E String := do
   let keys ← (← jArr (getF j "magkey")).toList.mapM jNat
   let ranks ← (← jArr (getF j "magrank")).toList.mapM jNat
   let m := keys.length
-  let pos := selectPos (fun a b => decide (a ≤ b)) keys k w
+  -- the function the theorems `C10_select`, `C10_dense_eig`, … are about: `selectPath` on the computed
+  -- spectrum whose values are the magnitude keys and whose column `i` is tagged with its index `[i]`;
+  -- the positions are read off the RETURNED columns
+  let s : Spectrum Nat := { vals := keys, vecs := (List.range m).map (fun i => [i]) }
+  let out := selectPath (fun a b => decide (a ≤ b)) (fun x => x) k w s
+  let pos := out.vecs.map (fun v => v.getD 0 m)
+  -- `select_by_magnitude` itself (`Lemmas/EigSelect.lean: selectPath_eq_selectPos` proves them equal)
+  let posIdx := selectPos (fun a b => decide (a ≤ b)) keys k w
+  let pathOk := pos == posIdx && out.vals == pos.map (fun i => keys.getD i 0)
   -- the positional part alone, against the CPython slice model
-  let sliceOk := slicePos m k w == slicePosPy m k w
+  let sliceOk := slicePos m k w == slicePosPy m k w && pathOk
   let sel := pos.map (fun i => ranks.getD i 0)
   let rest := (complementPos m pos).map (fun i => ranks.getD i 0)
   let specOk := extremeB w sel rest && pos.length == min k m
   pure ("{" ++ pre ++ s!",\"pos\":{showNats pos},\"slice_ok\":{sliceOk},\"spec_ok\":{specOk},\"clauses\":[]" ++ "}")
+
+/-! ## the LOBPCG rule -/
+
+/-- `magkey` / `magrank`: magnitudes of the FULL spectrum listed ascending by value; CODE: `lobpcgRule` (only the
+`min(n - 1, max_iters)` algebraically largest pairs are computed, then `select_by_magnitude`); SPEC: the positions
+are an extreme-magnitude selection of the full spectrum, `min(k, n)` of them -/
+def handleLobpcg (j : Json) (pre : String) : E String := do
+  let k ← jNat (getF j "k")
+  let w ← jWhich (getF j "which")
+  let maxIters ← jNat (getF j "max_iters")
+  let keys ← (← jArr (getF j "magkey")).toList.mapM jNat
+  let ranks ← (← jArr (getF j "magrank")).toList.mapM jNat
+  let m := keys.length
+  let s : Spectrum Nat := { vals := keys, vecs := (List.range m).map (fun i => [i]) }
+  let computed := lobpcgComputed maxIters s
+  let out := lobpcgRule (fun a b => decide (a ≤ b)) (fun x => x) k w maxIters s
+  let pos := out.vecs.map (fun v => v.getD 0 m)
+  let sel := pos.map (fun i => ranks.getD i 0)
+  let rest := (complementPos m pos).map (fun i => ranks.getD i 0)
+  let specOk := extremeB w sel rest && pos.length == min k m
+  let clauses : List String := if specOk then [] else ["lobpcg-drops-smallest"]
+  pure ("{" ++ pre ++ s!",\"pos\":{showNats pos},\"computed\":{computed.vals.length},\"spec_ok\":{specOk},\"clauses\":{showStrs clauses}" ++ "}")
 
 /-! ## structural rules -/
 
@@ -192,11 +227,13 @@ def runPower (K : Type) [Lanczos.Num K] [Codec K] (ofFloat : Float → K) (j : J
   let r := powerIteration o tol maxIter v0 e0 e1
   -- the error every evaluation of the test saw (states 0 … r.i)
   let init : PIState K (Array K) := { i := 0, v := v0, vprev := v0, eig := e0, eigprev := e1 }
-  let (_, errs) := (List.range (r.i + 1)).foldl
-    (fun (acc : PIState K (Array K) × Array String) _ =>
+  -- … and the value `eig` of every state (state `j ≥ 1`: the product `conj(v_{j-1}) @ A v_{j-1}`)
+  let (_, errs, eigs) := (List.range (r.i + 1)).foldl
+    (fun (acc : PIState K (Array K) × Array String × Array String) _ =>
       let s := acc.1
-      (piBody o s, acc.2.push (Codec.reBits (o.relerr s.eig s.eigprev)))) (init, #[])
-  pure ("{" ++ pre ++ s!",\"steps\":{r.i},\"eig\":{Codec.enc r.eig},\"v\":[{",".intercalate (r.v.toList.map Codec.enc)}],\"errs\":[{",".intercalate errs.toList}]" ++ "}")
+      (piBody o s, acc.2.1.push (Codec.reBits (o.relerr s.eig s.eigprev)), acc.2.2.push (Codec.enc s.eig)))
+    (init, #[], #[])
+  pure ("{" ++ pre ++ s!",\"steps\":{r.i},\"eig\":{Codec.enc r.eig},\"v\":[{",".intercalate (r.v.toList.map Codec.enc)}],\"errs\":[{",".intercalate errs.toList}],\"eigs\":[{",".intercalate eigs.toList}]" ++ "}")
 
 /-! ## dispatch of calls -/
 
@@ -206,6 +243,7 @@ def handle (j : Json) : E String := do
   match ← jStr (getF j "call") with
   | "route" => handleRoute j pre
   | "select" => handleSelect j pre
+  | "lobpcg" => handleLobpcg j pre
   | "structural" => handleStructural j pre
   | "power" =>
       if ← jBool (getF j "cplx") then runPower Lanczos.CF (fun x => ⟨x, 0.0⟩) j pre
